@@ -55,7 +55,7 @@ def main():
                        "level_claimed": lc, "level_note": TRUST, "technique": tech})
     old = json.load(open(os.path.join(ROOT, "MANIFEST.json")))
     hooks = {"guard": "bnum_verif",
-             "enable": "RUSTFLAGS="--cfg bnum_verif" (set by ./check when it builds /verif/harness against /repo); the hooks are thin pub wrappers verif_* around internal functions (long_mul, div_rem_digit, div_rem_unchecked, basecase_div_rem, iilog, unchecked_shl_internal, unchecked_shr_pad_internal, rotate_digits_left, unchecked_rotate_left, last_digit_index, signed div_rem_unchecked)",
+             "enable": "RUSTFLAGS=--cfg bnum_verif (set by ./check when it builds /verif/harness against /repo); the hooks are thin pub wrappers verif_* around internal functions (long_mul, div_rem_digit, div_rem_unchecked, basecase_div_rem, iilog, unchecked_shl_internal, unchecked_shr_pad_internal, rotate_digits_left, unchecked_rotate_left, last_digit_index, signed div_rem_unchecked)",
              "baseline_off_cmd": "cd /repo && cargo test --workspace --no-fail-fast --offline",
              "source_commits": ["6ab917adbd65a440188a7c6e8db6e3955af81495"], "add_only": True}
     m = {"version": 1, "setup_cmd": "./setup.sh", "hooks": hooks,
